@@ -15,7 +15,8 @@ from props import c01
 from vlib.common import VERIF, Check, hexs, run_model
 
 PID = "C02"
-LOWER_CMDS = ["show vlan 100", "terminal width 511", "show process cpu history aa", "show version", "show run | include lo0", "show ip route  ", "ping 10.0.0.1 repeat 2", "show  two   blanks", "s", "show log | i x"]
+# rough mode commands: mixed case since fix f3f6abb (before it an input with an upper-case letter never matched its own echo)
+LOWER_CMDS = ["SHOW Version", "show run | include IOS", "show vlan 100", "terminal width 511", "show process cpu history aa", "show version", "show run | include lo0", "show ip route  ", "ping 10.0.0.1 repeat 2", "show  two   blanks", "s", "show log | i x"]
 
 
 def observables(sc, res):
@@ -148,7 +149,7 @@ def run(tier, seed):
                "leading/trailing blanks. Each variant is replayed on the Lean model with the recorded read sizes.")
     ck.trusted = ["Lean 4.33.0 kernel; axioms audited", "tools/gen/c01.py", "tools/rx2lean.py + Rx.lean (regex fragment model)", "harness: simdevice/simtransport/chanscen (causal device, Decorator)"]
     ck.assumptions = ["causal device; sequences are ESC-introduced, contain no further introducer byte and are at most 256 bytes long (read boundaries may fall anywhere, also inside a sequence)",
-                      "rough mode: junk bytes precede echoed bytes, are not input bytes; inputs lower-case (rough matching compares against the lower-cased input)",
+                      "rough mode: junk bytes precede echoed bytes and are not input bytes",
                       "login (channel_authenticate_*) chunking is covered by the C09 check"]
     try:
         translate.translate("C01")
@@ -182,7 +183,7 @@ def run(tier, seed):
             base.decor = {"kind": mode, "seed": rng.randrange(10**6), "p": rng.choice([0.05, 0.15, 0.3])}
         if mode == "rough":
             base.rough = True
-            base.echo_junk = {"seed": rng.randrange(10**6), "alphabet": rng.choice(["\x08 ", "~^", " \t", "XYZ"])}
+            base.echo_junk = {"seed": rng.randrange(10**6), "alphabet": rng.choice(["\x08 ", "~^", " \t", "QJ"])}
             # junk precedes echoed bytes; it must not follow the last visible byte, so no trailing blanks in rough-mode inputs
             cmds = [c.strip() for c in rng.sample(LOWER_CMDS, 2)]
             base.outputs = {c.strip(): c01.gen_output(rng, 60, cap=120) for c in cmds}
@@ -279,6 +280,9 @@ def ansi_differential(ck, tier):
             for _ in range(rng.randint(1, 8)):
                 if rng.random() < 0.5:
                     t = bytes(rng.choice(b"abc xyz\n#>01") for _ in range(rng.randint(0, 6)))
+                    if rng.random() < 0.3:
+                        # UTF-8 text with the bytes 0x9B / 0x9D followed by what used to complete an 8-bit "sequence" (fix 3f4e39f)
+                        t += rng.choice(["✛Eth1", "❝Mgmt", "ě7", "魛[0m", "✛ 8"]).encode()
                     parts.append(t)
                     plain += t
                 else:
